@@ -26,6 +26,9 @@ CURATED = [
 ]
 
 
+PATHS_SIZES = {"quick": (), "thorough": ()}   # measured: 1 clause, no answer in 10 min (path explosion through Mapping::insert growth paths)
+
+
 def k6_instances(tier, seed):
     import random
     rnd = random.Random(1000 + seed)
@@ -94,6 +97,12 @@ def harnesses(tier, seed=0):
     hs.append(H("k5_twin_must_fail", K5, bounds="vacuity twin of k5_requires_2", expect="fail", timeout=600, group="k5"))
     hs.append(H("k6_twin_must_fail", K6, bounds="vacuity twin of k6_start_watching", expect="fail", timeout=900, group="k6"))
     hs += k6_text(tier, seed)[1]
+    for n in PATHS_SIZES.get(tier, ()):
+        hs.append(H("k6_paths_update_%d" % n, K6,
+                    bounds="%d clauses, each watching ANY ordered pair of distinct literals over the 6-literal alphabet; cursor on ANY literal advanced to ANY position < %d; update() to ANY other literal that is not the clause's other watch; all 6 lists walked before and after (CBMC path mode)" % (n, n),
+                    symbolic=["watched pair of every clause", "literal", "position in its list", "new watch"],
+                    enumerated=["%d clauses" % n, "pre-sized map (8 slots, chunk 4)"], min_covers=3 if n > 1 else 2, timeout=3600, mem_gb=16,
+                    group="k6_paths", extra_args=["-Z", "unstable-options", "--cbmc-args", "--paths", "lifo"]))
     return hs
 
 
